@@ -235,8 +235,14 @@ class H2Protocol:
                 await self.has_data.set()
                 await self.stream_buffers[event.stream_id].drain()
             elif isinstance(event, Trailers):
-                self.connection.send_headers(event.stream_id, event.headers)
+                # Trailers follow the body and end the stream
+                self.priority.unblock(event.stream_id)
+                await self.has_data.set()
+                await self.stream_buffers[event.stream_id].drain()
+                self.connection.send_headers(event.stream_id, event.headers, end_stream=True)
                 await self._flush()
+                del self.stream_buffers[event.stream_id]
+                self.priority.remove_stream(event.stream_id)
             elif isinstance(event, StreamClosed):
                 await self._close_stream(event.stream_id)
                 buffer = self.stream_buffers.get(event.stream_id)
